@@ -16,7 +16,16 @@ RULE = ("one case = one builder input x target version: texture/model/WMO name l
         "top-level framing tiles the file, MCNK sub-chunk framing tiles every MCNK payload behind the 128-byte header, every MHDR slot (relative to MHDR data) and "
         "every MCNK header slot (relative to chunk start) points at a chunk of the named type (and is not 0 while such a chunk exists), every used MCIN "
         "(offset,size) pair points at a distinct MCNK whose size agrees, every MMID / MWID entry is the byte offset of the start of a name inside MMDX / MWMO and entry i "
-        "resolves to name i of the list the file was written from. distinct = distinct (version, MCNK-count class, root-optional pattern, names class, "
+        "resolves to name i of the list the file was written from; (x) conversion: to_bytes(from_root_adt(parsed, Some(target))) for 2 (quick) / 3 (thorough) / all 6 (isolated cases) "
+        "target versions passes the walker and parses to the source content in every field the target can carry (MFBO from TBC, MH2O / MTXF from WotLK, MAMP / MCLV from Cataclysm, "
+        "MTXP / blend mesh / MCBB from MoP; an all-zero MFBO or MTXF the conversion adds where the source has none is no difference; nothing is demanded of fields the target cannot carry); "
+        "(p) other entry points must agree with the ones above: AdtBuilder::from_parsed(parsed).build() -> to_bytes (round 1 and, on every second case, the edited tile) either writes the bytes "
+        "from_root_adt(parsed, None) writes or is itself walked, parsed, compared and held to the size limit; parse_adt_with_metadata yields the tile parse_adt yields, with metadata version == tile "
+        "version, file type root, chunk count and every (chunk id, offset, size) of its discovery record equal to the walker's frames; write_to_file -> AdtSet::load_from_path -> merge (one case in eight) on the lone "
+        "root file yields the tile parse_adt yields; the texture list enters the builder by add_texture, by one add_textures call, or by both (a third of the cases each); the edit stage reaches "
+        "the parsed tile only through RootAdt::*_mut (mcnk_chunks_mut, and root-level edits through textures_mut / models_mut / wmos_mut / doodad_placements_mut / wmo_placements_mut / "
+        "water_data_mut / flight_bounds_mut / texture_flags_mut / texture_amplifier_mut / texture_params_mut: rename or append a name, replace / append / remove a placement, new levels on or "
+        "drying of a wet chunk, new planes / flags / amplifier / height parameters). distinct = distinct (version, MCNK-count class, root-optional pattern, names class, "
         "placement class, validity kind) tuples whose build succeeded; rejected inputs are trivial.")
 
 ASSUME = [
@@ -38,6 +47,9 @@ EXCLUSIONS = [
     "absent list-like sub-chunk == empty list (MCLY, MCRF, MCRD, MCRW, MCAL, MCSE, MCBB); an all-empty MH2O == no MH2O; MH2O attributes are only generated on chunks that have an instance",
     "never generated (still compared, expected absent): MCMT, MCRD, MCRW (split-file-only sub-chunks; the builder writes root files), MCDD (post-MoP), "
     "the high-resolution-holes flag (its 8 bytes double as MCVT/MCNR offsets), McvtChunk/MccvChunk/... with a vertex count other than 145, more than 256 MH2O entries",
+    "conversions (from_root_adt with a target version): content the target version cannot carry is not compared (tallied in xver_fields_not_carriable_stripped / _kept); the detected version of the "
+    "converted file is not content (counters xver_detected|target->detected); no size limit is demanded of a conversion",
+    "AdtSet / merge_split_files with harness-encoded _tex0 / _obj0 / _lod companion files: split files are not builder output, not generated",
     "MCIN size convention: the statement does not fix whether the size includes the 8-byte chunk header; either is accepted if used consistently within a file "
     "(client files include it; observed convention is in counters mcin_size_is_payload / mcin_size_is_payload_plus_header)",
     "all-zero 8-byte records between MCNK header and first sub-chunk frame correctly (empty magic, size 0) and are tallied (mcnk_null_pad_records), not flagged: "
